@@ -1,0 +1,9 @@
+//go:build verif
+
+package kafka
+
+// Add-only export file for the verification harness in /verif (property C06, op batchrd).
+
+// VerifBuffered is the number of bytes read from the connection and not yet consumed
+// (c.rbuf.Buffered()), for the byte accounting of op batchrd.
+func VerifBuffered(c *Conn) int { return c.rbuf.Buffered() }
